@@ -9,7 +9,15 @@ VS_NOTE = ("Trusted base: the vxform source rewrite (mechanical, type-directed; 
            "explored at synchronisation-operation granularity under sequential consistency; plain-memory data races and weak-memory "
            "effects are outside this engine. State-key pruning is validated by ./check <ID> --selftest (outcome sets with/without pruning).")
 
+def vs(design, text):
+    return dict(engine="vsched", category="model_checking", design=design,
+      technique="stateless model checking of the instrumented implementation: exhaustive DFS over all interleavings, select tie-breaks, map orders and fault positions, with state-key pruning",
+      text=text, note=VS_NOTE)
+
 CHECKS = {
+ "C03": vs("4/C03", "2-3 subscribers on disjoint/overlapping/default topics (one cancelled after noting which publishes had returned, or one failing), 2-3 publisher threads, fast and slow clients: ALL schedules at synchronisation granularity are executed on the real code; the oracle rebuilds Joe's serialisation order from the recording replayer and checks exactly-once, order, topic matching, completeness and Send-then-Flush on every execution."),
+ "C07": vs("4/C07", "Every multiset of up to 4 actors {Subscribe, Subscribe+cancel, Publish, 2xPublish, Shutdown, Shutdown(ctx)+cancel} with a Shutdown, Joe initialised before or by the racing calls, fast/slow clients, followed by late calls: ALL schedules; termination is decided by the scheduler's deadlock detector (no timeouts), return values by the oracle."),
+ "C17": vs("4/C17", "Three (four) subscribers with one failing at its k-th call, a publisher, and a replayer whose k-th Put/Replay errs or panics (all enumerated): ALL schedules, map orders exhaustively in the racing scenarios and deviation-bounded in the phased ones; the delivery oracle demands for the healthy subscribers exactly what C03 demands, as if the failing one did not exist."),
  "C06": dict(engine="vsched", category="model_checking", design="4/C06",
    technique="stateless model checking of the instrumented implementation: exhaustive DFS over all interleavings, select tie-breaks, map orders and fault positions, with state-key pruning",
    text="Every scenario (1-3 subscribers with failing/cancelling writers, cancellers, publisher, concurrent Shutdown, failing replayer) is explored over ALL schedules at synchronisation granularity; the oracle (no panic, no deadlock, no writer call after Subscribe returned, Subscribe returns the subscriber's own error) is evaluated on every execution. Within the scenario bounds this is a coverage statement, not a sample.",
